@@ -316,7 +316,7 @@ func ruleC06_4(c *Ctx) {
 	cs := c.A.F("canStore")
 	ff := c.A.F("freshness")
 	uses := func(fn *ssa.Function) bool {
-		return callsWhere(fn, func(cc *ssa.CallCommon) bool { return cc.StaticCallee() == heur })
+		return c.P.StaticTree(fn)[heur] // directly or through a helper
 	}
 	if uses(cs) && uses(ff) {
 		c.Pass("C06.4", "heuristic-table-agreement", "storability and heuristic lifetime consult the same status table", c.P.ShortName(heur))
